@@ -28,8 +28,12 @@ pub trait ExWrite {
     spec fn infallible(&self) -> bool;
     /// position in written() up to which the sink has been flushed
     spec fn flushed(&self) -> nat;
+    /// two-state frame relation "same underlying sink, not re-seated" (prophetic, like ReadSpec::src_eq)
+    #[verifier::prophetic]
+    spec fn snk_eq(&self, o: &Self) -> bool;
     fn write(&mut self, buf: &[u8]) -> (r: std::io::Result<usize>)
         ensures
+            (*final(self)).snk_eq(&*old(self)),
             (*final(self)).infallible() == (*old(self)).infallible(),
             r matches Ok(n) ==> n <= buf@.len()
                 && (*final(self)).written() == (*old(self)).written() + buf@.take(n as int),
@@ -38,6 +42,7 @@ pub trait ExWrite {
             (*final(self)).flushed() <= (*final(self)).written().len();
     fn write_all(&mut self, buf: &[u8]) -> (r: std::io::Result<()>)
         ensures
+            (*final(self)).snk_eq(&*old(self)),
             (*final(self)).infallible() == (*old(self)).infallible(),
             r is Ok ==> (*final(self)).written() == (*old(self)).written() + buf@,
             r is Err ==> (*old(self)).written().is_prefix_of((*final(self)).written())
@@ -46,11 +51,32 @@ pub trait ExWrite {
             (*final(self)).flushed() <= (*final(self)).written().len();
     fn flush(&mut self) -> (r: std::io::Result<()>)
         ensures
+            (*final(self)).snk_eq(&*old(self)),
             (*final(self)).infallible() == (*old(self)).infallible(),
             (*final(self)).written() == (*old(self)).written(),
             r is Ok ==> (*final(self)).flushed() == (*final(self)).written().len(),
             (*old(self)).infallible() ==> r is Ok;
 }
+
+// `&mut W` is a sink that forwards to W (std's blanket impl): its ghost view is W's view.
+impl<'a, W: std::io::Write> WriteSpecImpl for &'a mut W {
+    open spec fn written(&self) -> Seq<u8> { (**self).written() }
+    open spec fn infallible(&self) -> bool { (**self).infallible() }
+    open spec fn flushed(&self) -> nat { (**self).flushed() }
+    #[verifier::prophetic]
+    open spec fn snk_eq(&self, o: &Self) -> bool {
+        mut_ref_future(*self) == mut_ref_future(*o) && (**self).snk_eq(&**o)
+    }
+}
+#[verifier::external_body]
+pub broadcast proof fn axiom_snk_eq_refl<W: std::io::Write>(w: &W)
+    ensures #[trigger] w.snk_eq(w)
+{}
+#[verifier::external_body]
+pub broadcast proof fn axiom_snk_eq_trans<W: std::io::Write>(a: &W, b: &W, c: &W)
+    requires #[trigger] a.snk_eq(b), #[trigger] b.snk_eq(c)
+    ensures a.snk_eq(c)
+{}
 
 // ---- std::io::Read / BufRead ---------------------------------------------------------------
 // Ghost view: remaining() = the bytes this reader will still deliver (absent I/O errors);
@@ -214,6 +240,7 @@ pub mod shim {
         #[verifier::external_body]
         fn write_u8(&mut self, v: u8) -> (r: std::io::Result<()>)
             ensures
+                (*final(self)).snk_eq(&*old(self)),
                 (*final(self)).infallible() == (*old(self)).infallible(),
                 r is Ok ==> (*final(self)).written() == (*old(self)).written() + seq![v],
                 r is Err ==> (*old(self)).written().is_prefix_of((*final(self)).written())
@@ -223,6 +250,7 @@ pub mod shim {
         #[verifier::external_body]
         fn write_u16_be(&mut self, v: u16) -> (r: std::io::Result<()>)
             ensures
+                (*final(self)).snk_eq(&*old(self)),
                 (*final(self)).infallible() == (*old(self)).infallible(),
                 r is Ok ==> (*final(self)).written() == (*old(self)).written() + enc_be16(v),
                 r is Err ==> (*old(self)).written().is_prefix_of((*final(self)).written())
@@ -232,6 +260,7 @@ pub mod shim {
         #[verifier::external_body]
         fn write_u32_le(&mut self, v: u32) -> (r: std::io::Result<()>)
             ensures
+                (*final(self)).snk_eq(&*old(self)),
                 (*final(self)).infallible() == (*old(self)).infallible(),
                 r is Ok ==> (*final(self)).written() == (*old(self)).written() + enc_le32(v),
                 r is Err ==> (*old(self)).written().is_prefix_of((*final(self)).written())
@@ -241,6 +270,7 @@ pub mod shim {
         #[verifier::external_body]
         fn write_u64_le(&mut self, v: u64) -> (r: std::io::Result<()>)
             ensures
+                (*final(self)).snk_eq(&*old(self)),
                 (*final(self)).infallible() == (*old(self)).infallible(),
                 r is Ok ==> (*final(self)).written() == (*old(self)).written() + enc_le64(v),
                 r is Err ==> (*old(self)).written().is_prefix_of((*final(self)).written())
